@@ -99,10 +99,12 @@ def run_history(sim, hseed, res, max_ops=None, thorough=False):
                             res.count('values_with_repeated_content')
                         else:
                             contents[(svn, vn)] = dbsim.payload(rng, sim.next_uid(f'{tk}.{an}.{svn}.{vn}@{tg}/{run}'))
-                        history.append(contents[(svn, vn)])
+                        history.append(copy.deepcopy(contents[(svn, vn)]))
                 op = ['update', tk, an, tg, run]
                 sim.update(schema, tk, an, tg, run, contents)
                 res.count('updates')
+                if rng.random() < 0.3:
+                    scribble(res, contents)  # the author goes on editing its own object after storing it
             elif k < 0.72:
                 run = rng.choice([1, 2, 3, 4, 5, 6, 7, 9, 12, 13])
                 op = ['load', tk, an, tg, run]
@@ -115,6 +117,8 @@ def run_history(sim, hseed, res, max_ops=None, thorough=False):
                 if nt:
                     res.see('nontrivial', h64([hseed, i]))
                 cmp(bad, res, 'load', op, got, want)
+                if rng.random() < 0.5:
+                    scribble(res, got)
             elif k < 0.80:
                 run = rng.choice([1, 2, 3, 6, 7, 13])
                 level = rng.choice(['alg', 'sv', 'v'])
@@ -124,6 +128,8 @@ def run_history(sim, hseed, res, max_ops=None, thorough=False):
                 res.count('loads_checked')
                 res.count('loads_via_reference')
                 cmp(bad, res, 'load-via-ref', op, got, want)
+                if rng.random() < 0.5:
+                    scribble(res, got)
             elif k < 0.84:
                 op = ['collect', tk, an]
                 want = sim.expect_collect(schema, tk, an)
@@ -131,6 +137,8 @@ def run_history(sim, hseed, res, max_ops=None, thorough=False):
                 res.count('collects_checked')
                 for tn in set(want) | set(got):
                     cmp(bad, res, 'collect', op + [tn], got.get(tn, {}), want.get(tn, {}), untouched_ok=False)
+                    if rng.random() < 0.3:
+                        scribble(res, got.get(tn, {}))
             elif k < 0.88:
                 op = ['recede', tk, an, tg]
                 if tg in sim.targets:
@@ -168,6 +176,19 @@ def run_history(sim, hseed, res, max_ops=None, thorough=False):
             break
     info['trace'] = trace
     return bad, info
+
+
+def scribble(res, got):
+    '''what client code does with loaded values ("load the previous result, refine it in place, store it as
+    the next run"): a loaded value is the caller's own copy, editing it must not change what a later load returns'''
+    for g in got.values():
+        if isinstance(g, dict) and 'data' in g:
+            if isinstance(g['data'], list):
+                g['data'].append('edited-by-client')
+            elif isinstance(g['data'], dict):
+                g['data']['edited-by-client'] = True
+            g['uid'] = str(g.get('uid')) + '+edited-in-place-by-client-after-load'
+            res.count('loaded_values_edited_in_place')
 
 
 def cmp(bad, res, where, op, got, want, untouched_ok=True):
